@@ -198,7 +198,19 @@ def build():
     p.models["os.path.getsize"] = getsize
     p.models["os.path.basename"] = lambda i, a, k: Opaque("basename", None, of=a[0])
     p.models["os.path.join"] = lambda i, a, k: Opaque("joined", None, parts=tuple(a))
-    p.models["re.match"] = lambda i, a, k: (Opaque("match", None) if i.ctx.branch(HASHDIR(a[1].attrs["of"].term), "is-hash-dir") else None)
+    # entry directories are named by an argument hash: exactly 32 hexadecimal digits.  re.match only anchors at the start (a name that merely
+    # BEGINS with 32 hex digits matches too), re.fullmatch tests the whole name
+    STARTS_LIKE_HASH = z3.Function("name_starts_with_32_hex_digits", Dir.sort(), z3.BoolSort())
+
+    def re_match(full):
+        def h(i, a, k):
+            d = a[1].attrs["of"].term
+            i.ctx.assume(z3.Implies(HASHDIR(d), STARTS_LIKE_HASH(d)))
+            return Opaque("match", None) if i.ctx.branch(HASHDIR(d) if full else STARTS_LIKE_HASH(d), "name-matches") else None
+        return h
+
+    p.models["re.match"] = re_match(False)
+    p.models["re.fullmatch"] = re_match(True)
     p.models["datetime.datetime.fromtimestamp"] = lambda i, a, k: a[0]
     orig_for_items = p.for_items
 
@@ -214,20 +226,42 @@ def build():
         f = Item.field_fn
         interp.ctx.assume(z3.And(f("size")(it.term) == ops.as_int_term(args[1]), f("last_access")(it.term) == ops.as_num_term(args[2])))
         interp.ctx.ghost["LAST_ITEM_DIR"] = args[0]
+        g = interp.ctx.ghost
+        if "REPORTED" in g:
+            g["REPORTED"] = Sym(DIRSET, z3.Store(g["REPORTED"].term, args[0].term, True))
         return it
 
     p.models["new:CacheItemInfo"] = new_item
+    class _ArrK(Atom):
+        def __init__(self, name, srt):
+            self.name, self._s = name, srt
+
+        def sort(self):
+            return self._s
+
+    DIRSET = _ArrK("DirSet", z3.ArraySort(Dir.sort(), z3.BoolSort()))
+
+    def only_hash_dirs(interp):
+        d = z3.Const("d!rep", Dir.sort())
+        return ops.mk_bool(z3.ForAll([d], z3.Implies(z3.Select(interp.ctx.ghost["REPORTED"].term, d), HASHDIR(d))))
+
+    p.spec_funcs["only_hash_dirs"] = only_hash_dirs
+
+    def gi_setup(interp, env):
+        interp.ctx.ghost["REPORTED"] = Sym(DIRSET, z3.K(Dir.sort(), z3.BoolVal(False)))
+
     p.spec_funcs["sizes_ok"] = lambda interp, lst: True if isinstance(lst, PyList) and not lst.items else ops.mk_bool(z3.ForAll(
         [z3.Int("j!gi")], z3.Implies(z3.And(0 <= z3.Int("j!gi"), z3.Int("j!gi") < lst.length), Item.field_fn("size")(z3.Select(lst.arr, z3.Int("j!gi"))) >= 0),
         patterns=[z3.Select(lst.arr, z3.Int("j!gi"))]))
     p.add(Contract(
-        STORE, "FileSystemStoreBackend.get_items", props=["C18", "C11"], globals={"CacheItemInfo": lambda interp: ClassRefCI},
+        STORE, "FileSystemStoreBackend.get_items", props=["C18", "C11"], globals={"CacheItemInfo": lambda interp: ClassRefCI}, ghost=dict(REPORTED=DIRSET), setup=gi_setup,
         params=dict(self=ObjOf("FileSystemStoreBackend", location=OpaqueOf("location"))),
-        ensures={"every_reported_size_is_non_negative": "sizes_ok(result)"},
+        ensures={"every_reported_size_is_non_negative": "sizes_ok(result)",
+                 "only_directories_named_by_an_argument_hash_are_entries": "only_hash_dirs()"},
         # no exsures: whatever disappears while the inventory is taken, no exception escapes
         loops={1: Loop("for (dirpath, _, filenames) in os.walk(self.location)",
-                       invariant={"sizes_so_far": "sizes_ok(items)"},
-                       kinds={"items": ListOf(Item)})},
+                       invariant={"sizes_so_far": "sizes_ok(items)", "entries_so_far": "only_hash_dirs()"},
+                       kinds={"items": ListOf(Item)}, havoc=["ghost:REPORTED"])},
     ))
 
     # ---- Memory.reduce_size: delegates to enforce_store_limits once, or does nothing
